@@ -22,7 +22,7 @@ type c15Unit struct {
 
 // c15Session builds the units of one upload session: 0x1210, then per file 0x1211, its chunks in the
 // chosen order (optionally one resent), 0x1212.
-func c15Session(d consts.ActiveSafetyType, files []vFile, phone []byte, cuts [][]int, order []int, resend int) []c15Unit {
+func c15Session(d consts.ActiveSafetyType, files []vFile, phone []byte, cuts [][]int, order []int, resend int, rechunk bool) []c15Unit {
 	fill := func(label string, k int) []byte {
 		b := vrt_Bytes(label, k)
 		vNoEsc(b)
@@ -63,7 +63,13 @@ func c15Session(d consts.ActiveSafetyType, files []vFile, phone []byte, cuts [][
 			c := chunks[ci]
 			us = append(us, c15Unit{data: vChunk(d, f, c.off, c.n), file: fi, off: c.off, n: c.n})
 			if resend == fi+1 && k == 0 {
-				us = append(us, c15Unit{data: vChunk(d, f, c.off, c.n), file: fi, off: c.off, n: c.n})
+				if rechunk && c.n >= 2 {
+					// the same bytes again, cut differently: first byte, then the rest
+					us = append(us, c15Unit{data: vChunk(d, f, c.off, 1), file: fi, off: c.off, n: 1})
+					us = append(us, c15Unit{data: vChunk(d, f, c.off+1, c.n-1), file: fi, off: c.off + 1, n: c.n - 1})
+				} else {
+					us = append(us, c15Unit{data: vChunk(d, f, c.off, c.n), file: fi, off: c.off, n: c.n})
+				}
 			}
 		}
 		ctl(0x1212, v1211Body(f))
@@ -102,7 +108,8 @@ func VerifC15Upload() {
 		order = append(order, vrt_Choose("order", 2))
 	}
 	resend := vrt_Choose("resend", nFiles+1) // 0 none, k: first sent chunk of file k sent twice
-	us := c15Session(d, files, phone, cuts, order, resend)
+	rechunk := resend != 0 && vrt_Choose("rechunk", 2) == 1
+	us := c15Session(d, files, phone, cuts, order, resend, rechunk)
 	// segmentation: 0 = every unit in its own read, 1 = adjacent pairs coalesced, 2 = one unit cut in two
 	seg := vrt_Choose("segmentation", 3)
 	var reads [][]byte
@@ -185,6 +192,7 @@ func VerifC15Upload() {
 	}
 	vrt_Cover("two-chunks-reversed", cuts[0][0] > 0 && order[0] == 1)
 	vrt_Cover("resent-chunk", resend != 0)
+	vrt_Cover("resent-rechunked", rechunk)
 	vrt_Cover("coalesced", seg == 1)
 	vrt_Cover("unit-cut-in-two", seg == 2)
 }
